@@ -113,6 +113,9 @@ def replay_agg(inp):
     so, sp = float(np.nansum(agg["observed"].to_numpy(dtype=float))), float(np.nansum(agg["predicted"].to_numpy(dtype=float)))
     rw = float(np.sum((daily["observed"].to_numpy(dtype=float) - daily["predicted"].to_numpy(dtype=float))[both]))
     bad = abs((so - sp) - rw) > 1e-9 * max(1.0, abs(so) + abs(sp))
+    uneven = [str(t.date()) for t, a, b in zip(agg.index, agg["observed"].to_numpy(dtype=float), agg["predicted"].to_numpy(dtype=float)) if np.isfinite(a) != np.isfinite(b)]
+    if uneven:
+        return True, f"aggregated periods {uneven} have only one of observed/predicted: {agg[['observed', 'predicted']].to_dict('list')}"
     return bad, f"aggregated sum(observed)-sum(predicted) = {so - sp}, row-wise savings over days that have both = {rw} (observed total {so})"
 
 
@@ -219,6 +222,9 @@ def run_agg(case, agg, n):
         so = sum((to_real(lift(v)) for v in cells(out["observed"]) if F.finite(v)), z3.RealVal(0))
         sp = sum((to_real(lift(v)) for v in cells(out["predicted"]) if F.finite(v)), z3.RealVal(0))
         case.prove(p, so - sp == rw, "aggregated sum(observed) - sum(predicted) == row-wise savings over the days that have both", replay=rp)
+        # every aggregated period, like every day: both an observed and a predicted total, or neither
+        both = [F.finite(a) == F.finite(b) for a, b in zip(cells(out["observed"]), cells(out["predicted"]))]
+        case.prove(p, all(both), "every aggregated period has both an observed and a predicted total, or neither", replay=rp)
         for i in range(n):
             case.regime("temperature missing, usage present", ts[i] == "nan" and os_[i] == "val")
             case.regime("usage missing, temperature present", ts[i] == "val" and os_[i] == "nan")
